@@ -90,10 +90,7 @@ func verifSymEntry(name string, kind int) verifEntrySpec {
 	case 0:
 		e.data = vBytes("content", vChoose("size", 3))
 		if vChoose("xattr", 2) == 1 {
-			e.xkey, e.xval = "user.k", vBytes("xattr-value", 2)
-			for _, b := range e.xval {
-				vAssume(b != 0)
-			}
+			e.xkey, e.xval = "user.k", vBytes("xattr-value", 2) // any bytes, NUL included: only the first NUL of the element separates key and value
 		}
 	case 1:
 		e.target = vStr("target", 2)
